@@ -239,17 +239,6 @@ type walkerPipeline interface {
 	walk(context.Context, <-chan *Node, func(*WalkerNode) error) <-chan error
 }
 
-// sendErr hands err to a stage's error channel. handlePipelineErr receives at most one
-// value per channel, so a plain send could block forever once the buffer is taken;
-// after the pipeline's context is done (the call has returned or was cancelled) the
-// error is dropped instead.
-func sendErr(ctx context.Context, errc chan<- error, err error) {
-	select {
-	case errc <- err:
-	case <-ctx.Done():
-	}
-}
-
 // パイプラインの全ステージで最初のエラーを返却
 func (*treePipeline) handlePipelineErr(ctx context.Context, echs ...<-chan error) error {
 	verifPoint("herr.start")
